@@ -6,7 +6,7 @@
 From BM Require Import Base.Tactics Model.BlasC13 Model.BlasC13Gen Model.BlasC13Ref Model.BlasC13Crit Model.BlasC13Spec
   Model.BlasC13L1 Proofs.BlasC13Main Proofs.BlasC13Refuted Proofs.BlasC13Gemv Model.BlasC13L3 Model.BlasC13L3Crit Proofs.BlasC13RefProofs Proofs.BlasC13L1 Proofs.BlasC13Conj Proofs.BlasC13RankK
   Model.BlasC13L1Ref Model.BlasC13L3Spec Model.BlasC13TrsmRef Proofs.BlasC13L1Marsh Proofs.BlasC13RankKSites Proofs.BlasC13Trsm
-  Model.BlasC13L3Gen Proofs.BlasC13L3GenEq.
+  Model.BlasC13L3Gen Proofs.BlasC13L3GenEq Model.BlasC13Expr Proofs.BlasC13Expr.
 Local Open Scope Z_scope.
 
 (* the ladders the theorems speak about are the ones in the source text now *)
@@ -331,3 +331,203 @@ Theorem C13_level3_dispatch_regenerated :
   /\ (forall left lower unit a b, trsm_dispatch_gen left lower unit a b = trsm_dispatch left lower unit a b).
 Proof. exact level3_dispatch_regenerated. Qed.
 Print Assumptions C13_level3_dispatch_regenerated.
+
+(* ------------------------------------------------------------------------------------------------------------------ *)
+(* FOLLOW-UP 3: the expression layer (Model/BlasC13Expr.v): lazy ranges, the operators on them, decorated operands,   *)
+(* consuming statements.  Carrier laws used: commutative, associative multiplication with unit, rzero absorbing on    *)
+(* the left and neutral for + on the right, commutative +, (-x)*y = -(x*y), conjugation involutive -- and, when the    *)
+(* element type is real (cplx = false), trivial (numeric.hpp:291-295: conj() of a real array is the array itself).     *)
+(* ------------------------------------------------------------------------------------------------------------------ *)
+
+(* decorations compose: the logical contents of a view decorated by ANY sequence of blas::N / T / J / H (and ~, unary *
+   of blas::operators) are the conjugate (iff an odd number of J, H) of the transposed (iff an odd number of T, H)
+   contents of the undecorated view; shape, well-formedness and the set of cells follow the same parities *)
+Theorem C13_decorations_compose :
+  forall (R : Type) (cj : R -> R) (cplx : bool),
+    (forall x, cj (cj x) = x) -> (cplx = false -> forall x, cj x = x) ->
+    forall (o : operand) (mem : Z -> R) (i j : Z),
+      let a := op_view o in let ds := op_decos o in
+         mval R cj (resolve cplx o) mem i j = operand_den R cj o mem i j
+      /\ operand_den R cj o mem i j = cjif R cj (decos_cj ds) (if decos_tr ds then mval R cj a mem j i else mval R cj a mem i j)
+      /\ rows (resolve cplx o) = (if decos_tr ds then cols a else rows a)
+      /\ cols (resolve cplx o) = (if decos_tr ds then rows a else cols a)
+      /\ (wf_mat a -> wf_mat (resolve cplx o))
+      /\ (forall p, in_mat (resolve cplx o) p <-> in_mat a p).
+Proof. exact decorations_compose. Qed.
+Print Assumptions C13_decorations_compose.
+
+(* c = e, c += e, multi::array r = e, +e, arr = e, arr += e  with  e ::= blas::gemm(s, a, b) | a * b | f * e  and decorated
+   a, b, c: if the statement reaches xGEMM with a call that passes the criterion, then -- with the scalars the expression
+   layer hands over: the PRODUCT of all factors and s as alpha, 0 for = and 1 for += as beta -- the reference routine
+   leaves in every element of the output the value of the expression (added to the old element for +=), and changes
+   no cell outside the output view.  All trees, sizes, strides, bases, scalars. *)
+Theorem C13_gemm_expr_sound :
+  forall (R : Type) (rzero rone : R) (radd rmul : R -> R -> R) (cj : R -> R) (cplx : bool),
+    (forall x y, rmul x y = rmul y x) -> (forall x y z, rmul (rmul x y) z = rmul x (rmul y z)) -> (forall x, rmul rone x = x) ->
+    (forall x, rmul rzero x = rzero) -> (forall x, radd x rzero = x) -> (forall x y, radd x y = radd y x) ->
+    (forall x, cj (cj x) = x) -> (cplx = false -> forall x, cj x = x) ->
+    forall (debug : bool) (st : gstmt R) (alpha beta : R) (a b c : mat) (k : gemm_call) (mem : Z -> R),
+      gcompile R rzero rone rmul cplx debug st = GpCall R alpha beta a b c (FBlas false k) ->
+      shapes_conform a b c ->
+      gemm_implements_b k a b c = true ->
+         gemm_legal k = true
+      /\ (forall i j, 0 <= i < rows c -> 0 <= j < cols c ->
+            gemm_ref R rzero radd rmul cj alpha beta k mem (maddr c i j)
+            = gstmt_den R rzero radd rmul cj cplx (gs_consume R st) (gs_expr R st) c mem i j)
+      /\ (forall p, ~ in_mat c p -> gemm_ref R rzero radd rmul cj alpha beta k mem p = mem p).
+Proof. exact gemm_expr_sound. Qed.
+Print Assumptions C13_gemm_expr_sound.
+
+(* the same at every call site of gemm_n that has a named condition (C13_gemm_partial), for well-formed operands *)
+Theorem C13_gemm_expr_partial :
+  forall (R : Type) (rzero rone : R) (radd rmul : R -> R -> R) (cj : R -> R) (cplx : bool),
+    (forall x y, rmul x y = rmul y x) -> (forall x y z, rmul (rmul x y) z = rmul x (rmul y z)) -> (forall x, rmul rone x = x) ->
+    (forall x, rmul rzero x = rzero) -> (forall x, radd x rzero = x) -> (forall x y, radd x y = radd y x) ->
+    (forall x, cj (cj x) = x) -> (cplx = false -> forall x, cj x = x) ->
+    forall (debug : bool) (st : gstmt R) (alpha beta : R) (a b c : mat) (k : gemm_call) (mem : Z -> R),
+      gcompile R rzero rone rmul cplx debug st = GpCall R alpha beta a b c (FBlas false k) ->
+      wf_mat a -> wf_mat b -> wf_mat c -> shapes_conform a b c -> mconj c = false ->
+      gemm_site_cond k a b c = true ->
+         gemm_legal k = true
+      /\ (forall i j, 0 <= i < rows c -> 0 <= j < cols c ->
+            gemm_ref R rzero radd rmul cj alpha beta k mem (maddr c i j)
+            = gstmt_den R rzero radd rmul cj cplx (gs_consume R st) (gs_expr R st) c mem i j)
+      /\ (forall p, ~ in_mat c p -> gemm_ref R rzero radd rmul cj alpha beta k mem p = mem p).
+Proof. exact gemm_expr_partial. Qed.
+Print Assumptions C13_gemm_expr_partial.
+
+(* f * range keeps the operands and multiplies the stored scalar (gemm.hpp:300-302) *)
+Theorem C13_gemm_scales_multiply :
+  forall (R : Type) (rone : R) (rmul : R -> R -> R) (cplx : bool) (f : R) (e : gexpr R),
+       gr_scale R (geval R rone rmul cplx (GxScale R f e)) = rmul f (gr_scale R (geval R rone rmul cplx e))
+    /\ gr_a R (geval R rone rmul cplx (GxScale R f e)) = gr_a R (geval R rone rmul cplx e)
+    /\ gr_b R (geval R rone rmul cplx (GxScale R f e)) = gr_b R (geval R rone rmul cplx e).
+Proof. exact gemm_scales_multiply. Qed.
+Print Assumptions C13_gemm_scales_multiply.
+
+Theorem C13_gemm_expr_satisfiable :
+  let a := mk_operand [] (mk_mat 1000008 7 1 2 3 false) in
+  let b := mk_operand [DcT; DcH; DcH] (mk_mat 2000005 6 1 4 3 false) in
+  let c := mk_operand [] (mk_mat 3000006 5 1 2 4 false) in
+  let e := GxScale gI (2, 0) (GxScale gI (1, 1) (GxGemm gI (3, 0) a b)) in
+  let st := mk_gstmt gI (GtView c) CsPlusAssign e in
+  exists k, gcompile gI (0, 0) (1, 0) gI_mul true true st
+            = GpCall gI (6, 6) (1, 0) (op_view a) (mk_mat 2000005 1 6 3 4 false) (op_view c) (FBlas false k)
+            /\ g_site k = 115 /\ gemm_implements_b k (op_view a) (mk_mat 2000005 1 6 3 4 false) (op_view c) = true.
+Proof. exact gemm_expr_instance. Qed.
+Print Assumptions C13_gemm_expr_satisfiable.
+
+(* y = e, y += e, multi::array r = e, +e, arr = e, arr += e  with  e ::= blas::gemv(s, m, x) | (aa * m) % x | m % x *)
+Theorem C13_gemv_expr_sound :
+  forall (R : Type) (rzero rone : R) (radd rmul : R -> R -> R) (cj : R -> R) (cplx : bool),
+    (forall x, rmul rone x = x) -> (forall x, rmul rzero x = rzero) -> (forall x, radd x rzero = x) -> (forall x y, radd x y = radd y x) ->
+    (forall x, cj (cj x) = x) -> (cplx = false -> forall x, cj x = x) ->
+    forall (debug : bool) (st : vstmt R) (alpha beta : R) (m : mat) (x y : vec) (k : gemv_call) (mem : Z -> R),
+      vcompile R rzero rone cplx debug st = VpCall R alpha beta m x y (GBlas k) ->
+      gemv_shapes m x y ->
+      gemv_implements_b k m x y = true ->
+         gemv_legal k = true
+      /\ (forall i, 0 <= i < rows m ->
+            gemv_ref R rzero radd rmul cj alpha beta k mem (vaddr y i)
+            = vstmt_den R rzero radd rmul cj cplx (vs_consume R st) (vs_expr R st) y mem i)
+      /\ (forall p, ~ in_vec y p -> gemv_ref R rzero radd rmul cj alpha beta k mem p = mem p).
+Proof. exact gemv_expr_sound. Qed.
+Print Assumptions C13_gemv_expr_sound.
+
+(* y += e, y -= e  with  e ::= blas::axpy(a, x) | e *= s | a * x | x :  y(l) becomes y(l) + e(l) resp. y(l) - e(l), the scalars
+   of repeated *= multiply, -= hands the NEGATED scalar to xAXPY, and only the elements of y change *)
+Theorem C13_axpy_expr_sound :
+  forall (R : Type) (rone : R) (radd rmul : R -> R -> R) (rneg : R -> R),
+    (forall x y, rmul x y = rmul y x) -> (forall x y z, rmul (rmul x y) z = rmul x (rmul y z)) -> (forall x, rmul rone x = x) ->
+    (forall x y, radd x y = radd y x) -> (forall x y, rmul (rneg x) y = rneg (rmul x y)) ->
+    forall (sg : asign) (e : aexpr R) (y : vec) (mem : Z -> R),
+      wf_vec (aexpr_vec R e) -> wf_vec y -> len (aexpr_vec R e) = len y ->
+         (forall l, 0 <= l < len y ->
+            axpy_ref R radd rmul (astmt_alpha R rone rmul rneg sg e) (astmt_call R y e) mem (vaddr y l)
+            = astmt_den R radd rmul rneg sg e y mem l)
+      /\ (forall p, ~ in_vec y p -> axpy_ref R radd rmul (astmt_alpha R rone rmul rneg sg e) (astmt_call R y e) mem p = mem p).
+Proof. exact axpy_expr_sound. Qed.
+Print Assumptions C13_axpy_expr_sound.
+
+(* T r = dot(x, y), +dot(x, y), (x, y), f2 * (f1 * dot(x, y)), with blas::C decorations: the value is the product of the factors
+   and sum_l x(l) * y(l) of the decorated logical contents, whenever the routine stores a result (not: empty vectors on the
+   xGEMV route, C13_dot_full_refuted) *)
+Theorem C13_dot_expr_sound :
+  forall (R : Type) (rzero : R) (radd rmul : R -> R -> R) (cj : R -> R) (cplx : bool),
+    (forall x y, rmul x y = rmul y x) -> (forall x, cj (cj x) = x) -> (cplx = false -> forall x, cj x = x) ->
+    forall (et : etype) (e : dexpr R) (c : dot_call) (mem : Z -> R) (stored : R),
+      cplx = is_complex_et et ->
+      vconj (vo_view (dexpr_x R e)) = false -> vconj (vo_view (dexpr_y R e)) = false ->
+      len (vo_view (dexpr_y R e)) = len (vo_view (dexpr_x R e)) ->
+      dexpr_call R cplx et e = Some c ->
+      (d_routine c = DViaGemv -> 0 < len (vo_view (dexpr_x R e))) ->
+      dot_ref R rzero radd rmul cj c mem = Some stored ->
+      dexpr_post R rmul e stored = dden R rzero radd rmul cj e mem.
+Proof. exact dot_expr_sound. Qed.
+Print Assumptions C13_dot_expr_sound.
+
+(* every spelling of trsm -- trsm(side, fill, alpha, a, b), trsm(side, alpha, U(a) | L(a), b), b /= U(a) | L(a), b |= U(a) | L(a) --
+   solves the system it names: tstmt_args gives (side, triangle, non-unit diagonal, scalar; right and 1 for /=, left and 1 for |=) *)
+Theorem C13_trsm_stmt_sound :
+  forall (R : Type) (rzero rone : R) (radd rmul : R -> R -> R) (cj : R -> R),
+    (forall x y, rmul x y = rmul y x) -> (forall x, cj (cj x) = x) ->
+    (forall x y, cj (rmul x y) = rmul (cj x) (cj y)) -> (forall x y, cj (radd x y) = radd (cj x) (cj y)) ->
+    cj rzero = rzero -> cj rone = rone ->
+    forall (debug : bool) (st : tstmt R) (a b : mat) (k : trsm_call) (mem mem' : Z -> R),
+      let g := tstmt_args rone st in
+      tstmt_model rone debug st a b = L3Call k ->
+      trsm_implements_b (ta_left g) (ta_lower g) (ta_unit g) k a b = true ->
+      trsm_post R rzero rone radd rmul cj (if t_conj_alpha k then cj (ta_alpha g) else ta_alpha g) k mem mem' ->
+         trsm_legal k = true
+      /\ trsm_math R rzero rone radd rmul cj (ta_left g) (ta_lower g) (ta_unit g) (ta_alpha g) a b mem mem'
+      /\ (forall p, ~ in_mat b p -> mem' p = mem p).
+Proof. exact trsm_stmt_sound. Qed.
+Print Assumptions C13_trsm_stmt_sound.
+
+(* herk | syrk (fill, alpha, a, c): one pass with beta = 0: the selected triangle gets alpha * a.a^H (a.a^T), nothing else changes *)
+Theorem C13_rk_nobeta_sound :
+  forall (R : Type) (rzero rone : R) (radd rmul : R -> R -> R) (cj re : R -> R),
+    (forall x y, rmul x y = rmul y x) -> (forall x, cj (cj x) = x) -> (forall x, rmul rzero x = rzero) -> (forall x, radd x rzero = x) ->
+    forall (herm upper : bool) (alpha : R) (a c : mat) (k : rk_call) (mem : Z -> R),
+      hstmt_passes rzero rone (HkNoBeta upper alpha) = [(upper, alpha, rzero)] ->
+      rk_implements_b herm upper k a c = true ->
+         rk_legal k = true
+      /\ (forall i j, 0 <= i < rows c -> 0 <= j < rows c -> in_triangle upper i j = true ->
+            rk_ref R rzero radd rmul cj re herm alpha rzero k mem (maddr c i j) = rk_value R rzero radd rmul cj re herm alpha a mem i j)
+      /\ (forall p, ~ triangle_cell upper c p -> rk_ref R rzero radd rmul cj re herm alpha rzero k mem p = mem p).
+Proof. exact rk_nobeta_sound. Qed.
+Print Assumptions C13_rk_nobeta_sound.
+
+(* herk(alpha, a, c), herk(a, c), herk(alpha, a), herk(a): the upper pass, then the lower pass on its result, both with beta = 0:
+   every element of c ends up with alpha * (a.a^H)(i,j) computed from the original a; no cell outside c changes *)
+Theorem C13_rk_both_sound :
+  forall (R : Type) (rzero rone : R) (radd rmul : R -> R -> R) (cj re : R -> R),
+    (forall x y, rmul x y = rmul y x) -> (forall x, cj (cj x) = x) -> (forall x, rmul rzero x = rzero) -> (forall x, radd x rzero = x) ->
+    forall (herm : bool) (alpha : R) (a c : mat) (k1 k2 : rk_call) (mem : Z -> R),
+      hstmt_passes rzero rone (HkBoth alpha) = [(true, alpha, rzero); (false, alpha, rzero)] ->
+      wf_mat c -> (s0 c = 1 \/ s1 c = 1) ->
+      (forall p, in_mat a p -> ~ in_mat c p) ->
+      rk_implements_b herm true k1 a c = true ->
+      rk_implements_b herm false k2 a c = true ->
+      let mem1 := rk_ref R rzero radd rmul cj re herm alpha rzero k1 mem in
+      let mem2 := rk_ref R rzero radd rmul cj re herm alpha rzero k2 mem1 in
+         (forall i j, 0 <= i < rows c -> 0 <= j < rows c -> mem2 (maddr c i j) = rk_value R rzero radd rmul cj re herm alpha a mem i j)
+      /\ (forall p, ~ in_mat c p -> mem2 p = mem p).
+Proof. exact rk_both_sound. Qed.
+Print Assumptions C13_rk_both_sound.
+
+(* x *= blas::scal(a), x *= a, blas::scal(a, first, last), y << x, y = blas::copy(x): the call of the named routine *)
+Theorem C13_l1stmt_sound :
+  forall (R : Type) (rmul : R -> R -> R) (st : l1stmt R) (mem : Z -> R),
+    match st with
+    | L1ScalRange a x | L1ScalOp x a | L1ScalIt a x =>
+        wf_vec x ->
+           (forall l, 0 <= l < len x -> scal_ref R rmul a (l1stmt_call st) mem (vaddr x l) = rmul a (xval R x mem l))
+        /\ (forall p, ~ in_vec x p -> scal_ref R rmul a (l1stmt_call st) mem p = mem p)
+    | L1CopyShift y x | L1CopyAssign y x =>
+        wf_vec x -> wf_vec y -> len x = len y ->
+           (forall l, 0 <= l < len y -> copy_ref R (l1stmt_call st) mem (vaddr y l) = xval R x mem l)
+        /\ (forall p, ~ in_vec y p -> copy_ref R (l1stmt_call st) mem p = mem p)
+    end.
+Proof. exact l1stmt_sound. Qed.
+Print Assumptions C13_l1stmt_sound.
